@@ -791,15 +791,19 @@ func (a *adapter) AuthUpdRecord(uid t.Uid, scheme, unique string, authLvl auth.L
 	}
 	sql, args := expandQuery("UPDATE auth SET "+strings.Join(parapg, ",")+" WHERE userid=? AND scheme=?", args...)
 	resp, err := a.db.Exec(ctx, sql, args...)
-	if isDupe(err) {
-		return t.ErrDuplicate
+	if err != nil {
+		if isDupe(err) {
+			return t.ErrDuplicate
+		}
+		// Report the actual error, not ErrNotFound.
+		return err
 	}
 
 	if count := resp.RowsAffected(); count <= 0 {
 		return t.ErrNotFound
 	}
 
-	return err
+	return nil
 }
 
 // Retrieve user's authentication record
